@@ -63,7 +63,13 @@ def check(run):
                 from ..astutil import LocalDefs
                 ld = LocalDefs(f.node)
                 vals = [x for x, _i, _l in ld.defs.get(v.id, [])] + list(ld.stores.get(v.id, []))
-                if any(is_abs(x) for x in vals):
+                # a return that is not inside a loop sees only what was bound/stored textually before it (early `return zeros` ahead of the scatter)
+                in_loop = any(r in list(ast.walk(lp)) for lp in ast.walk(f.node) if isinstance(lp, (ast.For, ast.While)))
+                if not in_loop:
+                    vals = [x for x in vals if getattr(x, "lineno", 0) < r.lineno]
+                if vals and all(isinstance(x, ast.Call) and (dotted(x.func) or [""])[-1] in ("zeros", "zeros_like") for x in vals):
+                    run.holds("F-PATH/abs-difference", c, where(f, r), "returns a freshly zeroed array (no difference stored yet on this path): non-negative")
+                elif any(is_abs(x) for x in vals):
                     run.holds("F-PATH/abs-difference", c, where(f, r), "returns the absolute difference")
                 elif vals and all(isinstance(x, ast.BinOp) or (isinstance(x, ast.Call) and (dotted(x.func) or [""])[-1] in ("zeros", "empty", "full", "zeros_like")) for x in vals):
                     run.violation("F-PATH/abs-difference", c, where(f, r), f"{fn} returns {v.id}, a plain difference: signed, not the absolute difference")
@@ -245,7 +251,7 @@ def _distance_inputs(run, P):
             probs.append(f"stored Cartesian coordinates {sorted(c_ for c_ in coords if c_.split('_')[1] in 'xyz')} enter the arc-length formula without _normalize_xyz: a source that supplies them with a radius other than 1 (metres, km) gives NaN or wrong distances")
         if comps and not (comps <= {"lon", "lat"} or comps <= {"x", "y", "z"}):
             probs.append(f"mixed coordinate systems {sorted(comps)}")
-        if not any(conn in norm(a) for a in call.args):
+        if not any(conn in norm(e) for a in call.args for e in defs.closure(a)[0]):
             probs.append(f"{conn} is not passed")
         if probs:
             run.violation("F-UNIT/distance-inputs", c, where(f, call), "; ".join(probs))
